@@ -27,11 +27,18 @@ type zzWorld struct {
 	parts []*drand.Participant
 }
 
-func zzNewWorld(n int) *zzWorld {
+func zzNewWorld(n int) *zzWorld { return zzNewWorldAddr(n, -1, "") }
+
+// zzNewWorldAddr: like zzNewWorld, but identity `special` (if >= 0) is registered under the given address.
+func zzNewWorldAddr(n, special int, addr string) *zzWorld {
 	sch := zzfake.Scheme(crypto.DefaultSchemeID)
 	w := &zzWorld{sch: sch}
 	for i := 0; i < n; i++ {
-		p := zzfake.KeyPair(sch, fmt.Sprintf("node%d.example:%d", i, 4000+i), fmt.Sprintf("dkg-kp%d", i))
+		a := fmt.Sprintf("node%d.example:%d", i, 4000+i)
+		if i == special {
+			a = addr
+		}
+		p := zzfake.KeyPair(sch, a, fmt.Sprintf("dkg-kp%d", i))
 		w.pairs = append(w.pairs, p)
 		part, err := util.PublicKeyAsParticipant(p.Public)
 		if err != nil {
